@@ -1,10 +1,10 @@
 package main
 
 import (
-	"go/token"
 	"fmt"
 	"go/ast"
 	"go/constant"
+	"go/token"
 	"go/types"
 	"sort"
 	"strings"
